@@ -3,17 +3,25 @@ import os, sys, json, shutil, subprocess, re, glob
 ROOT = "/verif"
 CONF = {}
 import itertools
-for l in itertools.chain(open("/tmp/mut/confirm.jsonl"), open("/tmp/mut/confirm2.jsonl")):
+def _lines(*fs):
+    for f in fs:
+        if os.path.exists(f):
+            for l in open(f):
+                yield l
+for l in _lines("/tmp/mut/confirm.jsonl", "/tmp/mut/confirm2.jsonl", "/tmp/mut3/confirm3.jsonl", "/tmp/mut3/confirm3b.jsonl"):
     try:
         d = json.loads(l)
         CONF[d["dir"]] = d
     except Exception:
         pass
 EXTRA = {"C05": ["C05", "C06", "C17"], "C06": ["C06", "C05"], "C17": ["C17", "C05"], "C04": ["C04", "C02", "C09"], "C10": ["C10", "C02"]}
+WAVE = os.environ.get("WAVE", "")          # "3": take /tmp/mut3/Cxx_out/*, ids Cxx-w3<name>, own property only
+if WAVE == "3":
+    EXTRA = {}
 only = sys.argv[1:]
-for d in sorted(glob.glob("/tmp/mut/C*_out/m*")):
+for d in sorted(glob.glob("/tmp/mut3/C*_out/*m[0-9]") if WAVE == "3" else glob.glob("/tmp/mut/C*_out/m*")):
     prop = os.path.basename(os.path.dirname(d))[:3]
-    mid = "%s-%s" % (prop, os.path.basename(d))
+    mid = "%s-%s%s" % (prop, "w3" if WAVE == "3" else "", os.path.basename(d).replace("extra_", "x"))
     if only and mid not in only and prop not in only:
         continue
     if not os.path.exists(os.path.join(d, "patch.diff")):
